@@ -207,7 +207,7 @@ def client_filter(C, f, salt=0):
     return C.Service(*f, eventgroups=egs, options_1=(opt,))
 
 
-_MAKE_SD_COUNT = [0]
+_MAKE_SD_COUNT = [int(__import__("os").environ.get("PV_MAKE_SD_OFFSET", "0"))]
 _FOREIGN_LOOP = []
 DECOY_TIMINGS = dict(INITIAL_DELAY_MIN=7.0, INITIAL_DELAY_MAX=9.0, REQUEST_RESPONSE_DELAY_MIN=5.0, REQUEST_RESPONSE_DELAY_MAX=6.0,
                      REPETITIONS_MAX=7, REPETITIONS_BASE_DELAY=3.0, CYCLIC_OFFER_DELAY=9.0, FIND_TTL=9, ANNOUNCE_TTL=11,
